@@ -251,6 +251,118 @@ def constant_insertion_sites():
     return sites
 
 
+def fn_bodies(toks):
+    """[(name, open, close)] for every fn with a body, nested fns included"""
+    res = []
+    i = 0
+    while i < len(toks):
+        if toks[i].text == "fn" and i + 1 < len(toks) and toks[i + 1].kind == "id":
+            name = toks[i + 1].text
+            j = i + 2
+            depth = 0
+            while j < len(toks) and not (toks[j].text == "{" and depth == 0) and not (toks[j].text == ";" and depth == 0):
+                if toks[j].text in ("(", "["):
+                    depth += 1
+                elif toks[j].text in (")", "]"):
+                    depth -= 1
+                j += 1
+            if j < len(toks) and toks[j].text == "{":
+                res.append((name, j, match_group(toks, j)))
+                i = j + 1
+                continue
+        i += 1
+    return res
+
+def txt(toks, lo, hi):
+    out = ""
+    for t in toks[lo:hi]:
+        s = t.text
+        if out and (out[-1].isalnum() or out[-1] == "_") and (s[0].isalnum() or s[0] == "_"):
+            out += " "
+        out += s
+    return out
+
+def stmt_end(toks, k, hi):
+    depth = 0
+    while k < hi:
+        t = toks[k]
+        if t.kind == "op":
+            if t.text in rustlex.OPEN:
+                depth += 1
+            elif t.text in (")", "]", "}"):
+                if depth == 0:
+                    return k
+                depth -= 1
+            elif t.text == ";" and depth == 0:
+                return k
+        k += 1
+    return hi
+
+BODIES = ("get_next_char_boundary", "is_at_end", "is_alpha", "is_digit")
+
+
+def scanner_positions(src=None):
+    """every place of scanner.rs where a byte position is computed or used: index / slice expressions (`x[..]`), the
+    `let`s that define the locals used in them, every write to self.current / self.start, the bodies of the two
+    primitives every position comes from and of is_alpha / is_digit (the ASCII guard of the keyword trie), and the number of unwrap()/expect() calls per function - as
+    `fn|kind|normalised text` rows in source order.  The scanner MODEL (YV.Scanner) works on the list of characters, so
+    "every slice lies on character boundaries" holds there by construction; these rows are what ties that to the code:
+    a new slice, a position computed by byte arithmetic, a changed primitive changes a row."""
+    toks = rustlex.lex(read("scanner.rs") if src is None else src)
+    rows = []
+    for name, o, c in fn_bodies(toks):
+        used = []
+        sl = []
+        k = o + 1
+        while k < c:
+            t = toks[k]
+            p = toks[k - 1]
+            if t.kind == "op" and t.text == "[" and (p.kind == "id" and not p.text.endswith("!") or p.text in (")", "]")) and p.text not in ("in", "return", "match", "if", "else"):
+                e = match_group(toks, k)
+                # receiver: the postfix chain id(.id)* before the bracket
+                r = k - 1
+                while r - 2 >= o and toks[r - 1].text == "." and toks[r - 2].kind == "id":
+                    r -= 2
+                sl.append("%s|index|%s[%s]" % (name, txt(toks, r, k), txt(toks, k + 1, e)))
+                for q in range(k + 1, e):
+                    x = toks[q]
+                    if x.kind == "id" and toks[q - 1].text != "." and x.text not in used:
+                        used.append(x.text)
+            k += 1
+        # writes to the positions
+        k = o + 1
+        wr = []
+        while k + 3 < c:
+            if toks[k].text == "self" and toks[k + 1].text == "." and toks[k + 2].text in ("current", "start") and \
+                    toks[k + 3].text in ("=", "+=", "-=") and toks[k - 1].text != ".":
+                e = stmt_end(toks, k + 4, c)
+                wr.append("%s|write|self.%s %s %s" % (name, toks[k + 2].text, toks[k + 3].text, txt(toks, k + 4, e)))
+                for q in range(k + 4, e):
+                    x = toks[q]
+                    if x.kind == "id" and toks[q - 1].text != "." and x.text not in used:
+                        used.append(x.text)
+                k = e
+            k += 1
+        lets = []
+        k = o + 1
+        while k + 2 < c:
+            if toks[k].text == "let":
+                j = k + 1
+                if toks[j].text == "mut":
+                    j += 1
+                if toks[j].kind == "id" and toks[j + 1].text == "=" and toks[j].text in used:
+                    e = stmt_end(toks, j + 2, c)
+                    lets.append("%s|let|%s = %s" % (name, toks[j].text, txt(toks, j + 2, e)))
+            k += 1
+        nun = sum(1 for k in range(o + 1, c - 1) if toks[k].text in ("unwrap", "expect") and toks[k - 1].text == "." and toks[k + 1].text == "(")
+        rows += lets + sl + wr
+        if name in BODIES:
+            rows.append("%s|body|%s" % (name, txt(toks, o + 1, c)))
+        if nun:
+            rows.append("%s|unwrap|%d" % (name, nun))
+    return rows
+
+
 def tkind_ctor(name):
     return "T" + name.rstrip("_")
 
@@ -299,6 +411,8 @@ def gen_tokens(man):
     kinds, kws = extract_tokens()
     man["c03_token_kinds"] = kinds
     man["c03_keywords"] = ["%s|%d|%s|%s" % k for k in kws]
+    pos = scanner_positions()
+    man["c03_scanner_positions"] = pos
     L = ["(* GENERATED by translator/translate_c03.py from scanner.rs (enum TokenKind, fn identifier_type) - do not edit *)",
          "From Coq Require Import List String.", "Import ListNotations.", "Open Scope string_scope.", "",
          "(* enum TokenKind, in declaration order *)",
@@ -307,6 +421,11 @@ def gen_tokens(man):
          "   (string patterns of the enclosing match arms, start, rest, K) in source order *)",
          "Definition keywords_gen : list (string * nat * string * string) := [",
          ";\n".join("  (%s, %d, %s, %s)" % (coq_str(p), s, coq_str(r), coq_str(k)) for p, s, r, k in kws),
+         "].", "",
+         "(* every index / slice expression of scanner.rs, the lets that define their bounds, every write to",
+         "   self.current / self.start, the two position primitives, unwrap() counts: fn|kind|text, in source order *)",
+         "Definition scanner_positions_gen : list string := [",
+         ";\n".join("  " + coq_str(r) for r in pos),
          "].", ""]
     return "\n".join(L)
 
